@@ -183,6 +183,9 @@ func constRule(c *core.Ctx) {
 // ceilRule: the helper computing the part count is (total + split - 1) / split.
 func ceilRule(c *core.Ctx, g *genericSplit) {
 	if g.ceilCall == nil {
+		if g.ceilInline {
+			c.OK("C07-TEMPLATE", "ceil", "", "part count written out as (len + k - 1) / k")
+		}
 		return
 	}
 	fn := g.ceilCall.Call.StaticCallee()
@@ -286,15 +289,36 @@ func parseRule(c *core.Ctx) {
 		return
 	}
 	pos := c.Prog.Pos(fn.Pos())
-	ps, err := paths.Enumerate(fn, paths.Config{})
+	// unexported helpers of the same package are inlined, so that the rule sees the same paths whether the two header
+	// forms are handled in place or by a helper each
+	inline := func(call *ssa.Call, callee *ssa.Function) bool {
+		return callee.Pkg == fn.Pkg && callee.Object() != nil && !callee.Object().Exported() && len(callee.Blocks) > 0
+	}
+	ps, err := paths.Enumerate(fn, paths.Config{Inline: inline, MaxDepth: 2})
 	if err != nil {
 		c.Unknown("C07-PARSE", "ParseLongSmsContent", pos, err.Error())
 		return
 	}
 	c.Count("parse_paths", len(ps))
+	var curPath *paths.Path
+	// resolveIn resolves a value in the frame of the function it belongs to (the latest event of that function on the
+	// current path): operands of a value computed inside an inlined helper refer to the helper's parameters
+	resolveIn := func(e paths.Event, v ssa.Value) ssa.Value {
+		if curPath != nil && v != nil && v.Parent() != nil && v.Parent() != fn {
+			for i := len(curPath.Events) - 1; i >= 0; i-- {
+				if k := curPath.Events[i].Kind; k == paths.EvEnter || k == paths.EvLeave {
+					continue // these carry the caller's frame
+				}
+				if curPath.Events[i].Fn == v.Parent() {
+					return curPath.Events[i].Resolve(v)
+				}
+			}
+		}
+		return e.Resolve(v)
+	}
 	octet := func(e paths.Event) *bits.Eval {
 		return &bits.Eval{
-			Resolve: e.Resolve,
+			Resolve: func(v ssa.Value) ssa.Value { return resolveIn(e, v) },
 			LeafName: func(v ssa.Value) string {
 				var x, idx ssa.Value
 				switch lk := v.(type) {
@@ -303,7 +327,7 @@ func parseRule(c *core.Ctx) {
 				case *ssa.Index:
 					x, idx = lk.X, lk.Index
 				}
-				if x == ssa.Value(fn.Params[0]) {
+				if x != nil && resolveIn(e, x) == ssa.Value(fn.Params[0]) {
 					if k, ok := constInt(idx); ok {
 						return fmt.Sprintf("c%d", k)
 					}
@@ -321,6 +345,7 @@ func parseRule(c *core.Ctx) {
 		}
 		var props []string
 		var last paths.Event
+		curPath = p
 		for _, e := range p.Events {
 			last = e
 			if e.Kind == paths.EvBranch {
